@@ -28,6 +28,87 @@ pub fn check_packet(p: &RefPacket) -> Vec<Finding> {
     }
 }
 
+/// Packets assembled by call sequences that include rejected calls and replacements: a TXT whose
+/// add_string / with_string was refused for some strings, an SVCB whose parameters were set more
+/// than once, EDNS data set, cleared and set again. What was built must parse back as the final
+/// content.
+pub fn check_assembled(kind: &str, n: usize) -> Vec<Finding> {
+    use crate::refmodel::schema::Val;
+    use crate::refmodel::{RefName, B};
+    use simple_dns::rdata::{RData, A, SVCB, TXT};
+    use simple_dns::{Name, Question, ResourceRecord, CLASS, QCLASS, QTYPE, TYPE};
+    let case = json!({"kind": "assembled", "how": kind, "n": n});
+    let long = "z".repeat(256 + n * 7);
+    let mut want = RefPacket { id: 7, flags: F_QR, ..Default::default() };
+    want.questions.push(RefQ { name: RefName::txt("t.example.com"), qtype: 16, qclass: 1, unicast: false });
+    let r = guarded(|| -> Result<RefPacket, (String, String)> {
+        let e = |s: &str, x: String| (s.to_string(), x);
+        let (rdata, vals, code): (RData, Vec<Val>, u16) = match kind {
+            "txt-rejected-strings" => {
+                let mut t = TXT::new();
+                let mut kept: Vec<B> = Vec::new();
+                for i in 0..=(n % 6) {
+                    if i == n % 3 {
+                        if t.add_string(&long).is_ok() {
+                            return Err(e("assembled-accepts-over-long", format!("add_string accepted {} bytes", long.len())));
+                        }
+                    }
+                    let s = ["k=v", "", "abc", "flag", "x=y=z", "last"][i];
+                    t.add_string(s).map_err(|x| e("construct", format!("{:?}", x)))?;
+                    kept.push(B(s.as_bytes().to_vec()));
+                }
+                match t.clone().with_string(&long) {
+                    Err(_) => {}
+                    Ok(_) => return Err(e("assembled-accepts-over-long", "with_string accepted an over-long string".to_string())),
+                }
+                (RData::TXT(t), vec![Val::Strs(kept)], 16)
+            }
+            _ => {
+                let mut s = SVCB::new(1, Name::new_unchecked("svc.example"));
+                let mut params: std::collections::BTreeMap<u16, Vec<u8>> = std::collections::BTreeMap::new();
+                for step in 0..=(n % 4) {
+                    let k = (n + step) % 3 + 1;
+                    match (n / 4 + step) % 4 {
+                        0 => {
+                            s.set_port(k as u16 * 1000);
+                            params.insert(3, (k as u16 * 1000).to_be_bytes().to_vec());
+                        }
+                        1 => {
+                            s.set_ipv4hint((0..k as u32).map(|i| 0x0a000001 + i)).map_err(|x| e("construct", format!("{:?}", x)))?;
+                            params.insert(4, (0..k as u32).flat_map(|i| (0x0a000001 + i).to_be_bytes()).collect());
+                        }
+                        2 => {
+                            s.set_param(7, vec![0x41u8; k * 9]).map_err(|x| e("construct", format!("{:?}", x)))?;
+                            params.insert(7, vec![0x41u8; k * 9]);
+                        }
+                        _ => {
+                            if s.set_param(9, vec![0u8; 70000]).is_ok() {
+                                return Err(e("assembled-accepts-over-long", "set_param accepted a 70000-byte value".to_string()));
+                            }
+                        }
+                    }
+                }
+                let pv: Vec<(u16, B)> = params.into_iter().map(|(k, v)| (k, B(v))).collect();
+                (RData::SVCB(s), vec![Val::U16(1), Val::Name(RefName::txt("svc.example")), Val::Params(pv)], 64)
+            }
+        };
+        want.answers.push(RefRR { name: RefName::txt("t.example.com"), class: 1, cache_flush: false, ttl: 60, rdata: RefRData::Typed { code, vals } });
+        want.additional.push(RefRR { name: RefName::txt("t.example.com"), class: 1, cache_flush: false, ttl: 61, rdata: RefRData::Typed { code: 1, vals: vec![Val::U32(0x01020304)] } });
+        let mut p = Packet::new_reply(7);
+        p.questions.push(Question::new(Name::new_unchecked("t.example.com"), QTYPE::TYPE(TYPE::TXT), QCLASS::CLASS(CLASS::IN), false));
+        p.answers.push(ResourceRecord::new(Name::new_unchecked("t.example.com"), CLASS::IN, 60, rdata));
+        p.additional_records.push(ResourceRecord::new(Name::new_unchecked("t.example.com"), CLASS::IN, 61, RData::A(A { address: 0x01020304 })));
+        let bytes = p.build_bytes_vec().map_err(|x| e("build-error", format!("{:?}", x)))?;
+        let q = Packet::parse(&bytes).map_err(|x| e("reparse-error", format!("own output rejected: {:?}; bytes {}", x, crate::engine::truncate(&crate::engine::hex(&bytes), 300))))?;
+        Ok(observe(&q))
+    });
+    match r {
+        Err(pn) => vec![finding(format!("C02|assembled|{}", pn.sig()), format!("{:?}", pn), case)],
+        Ok(Err((tag, d))) => vec![finding(format!("C02|assembled|{}|{}", kind, tag), d, case)],
+        Ok(Ok(o)) => diff(&want, &o).into_iter().map(|(tag, d)| finding(format!("C02|assembled|{}|{}", kind, tag), d, case.clone())).collect(),
+    }
+}
+
 fn first_type(p: &RefPacket) -> String {
     p.answers
         .iter()
@@ -63,12 +144,31 @@ pub fn run(ctx: &Ctx) {
     });
     ctx.space("packet space: header family, record family (<= 2 deviations), question family, section shapes", n_base as u64, "complete");
     ctx.space(&format!("cross family: every record with <= {} deviations x 5 classes x cache-flush x 5 TTLs; all ordered pairs of the 39 base records in 3 placements", if thorough { 2 } else { 1 }), (space.len() - n_base) as u64, "complete");
+    {
+        let mut t = Tally::default();
+        let mut n_as = 0u64;
+        for kind in ["txt-rejected-strings", "svcb-repeated-setters"] {
+            for n in 0..96usize {
+                t.evals += 1;
+                t.nontrivial += 1;
+                n_as += 1;
+                let f = check_assembled(kind, n);
+                t.outcome(if f.is_empty() { "equal" } else { "differs" });
+                ctx.violations(f);
+            }
+        }
+        ctx.merge(t);
+        ctx.space("assembled by call sequences with rejected and repeated calls: TXT with over-long strings refused between accepted ones (96 shapes), SVCB with parameters set repeatedly and an over-long value refused (96 shapes)", n_as, "complete");
+    }
     for i in [200usize, space.len() / 2, space.len() - 1] {
         ctx.sample(json!({"kind": "packet", "packet": space[i.min(space.len() - 1)]}));
     }
 }
 
 pub fn replay(case: &Value) -> Vec<Finding> {
+    if case["kind"].as_str() == Some("assembled") {
+        return check_assembled(case["how"].as_str().unwrap_or(""), case["n"].as_u64().unwrap_or(0) as usize);
+    }
     match serde_json::from_value::<RefPacket>(case["packet"].clone()) {
         Ok(p) => check_packet(&p),
         Err(e) => vec![finding("C02|replay-unreadable", format!("{}", e), case.clone())],
